@@ -50,7 +50,7 @@ func (r Responses) JSONLookup(token string) (interface{}, error) {
 	if ex, ok := r.Extensions[token]; ok {
 		return &ex, nil
 	}
-	if i, err := strconv.Atoi(token); err == nil {
+	if i, err := strconv.Atoi(token); err == nil && strconv.Itoa(i) == token { // only the spelling the encoding has
 		if scr, ok := r.StatusCodeResponses[i]; ok {
 			return scr, nil
 		}
